@@ -721,6 +721,26 @@ def rule_paircond(ctx, prop: str) -> RuleResult:
                                 + f": on the other path field `{a.attr}` of the callee node and of the block node are never related and nodes differing in it unify "
                                 f"(a block loop seq(3, 16) is accepted as an instance of the callee loop seq(0, n))"))
         res.sample(f"{qn}: {n_pairs} field pairings so far, each governed by the constructor dispatch only")
+    # a relation stated between a term and ITSELF states nothing: `unify_affine_e(pw.pt, pw.pt)` makes the
+    # equation for a window's point coordinate `callee == callee`; the block's coordinate is never compared
+    # and row 3 of a buffer unifies with the callee's row 0
+    U_ = "src/exo/rewrite/LoopIR_unification.py"
+    n_rel = 0
+    for f in (g for g in ix.all_funcs() if g.file == U_):
+        for n in f.body_nodes():
+            if isinstance(n, ast.Call) and len(n.args) >= 2 and (last_name(n) or "").startswith(("unify", "match_", "is_exact", "add_eq")):
+                n_rel += 1
+                res.instances += 1
+                a0, a1 = ast.unparse(n.args[0]), ast.unparse(n.args[1])
+                ok = a0 != a1
+                res.ob(ok)
+                if not ok:
+                    res.nontrivial += 1
+                    res.add(Finding("PAIRCOND", U_, n.lineno, f.qualname, f"self:{ast.unparse(n)[:50]}",
+                                    f"`{ast.unparse(n)[:70]}` relates `{a0}` to itself: the equation always holds and the corresponding part of the other operand is never compared "
+                                    f"(a block window A[3, 0:8] unifies with the callee's x[0, 0:8])"))
+    if n_rel < 20:
+        raise AnalysisError(f"PAIRCOND: only {n_rel} binary unification calls found in LoopIR_unification.py — idiom changed, checker blind")
     if n_pairs < 14:
         raise AnalysisError(f"PAIRCOND: only {n_pairs} field pairings recognised in unify_stmts / unify_e — idiom changed, checker blind")
     res.floor = 14
